@@ -282,13 +282,27 @@ def make_cases(run, scratch):
     return cases
 
 
+def synthetic_pus(name):
+    """Number of PUs of a synthetic description (product of the arities; attributes in parentheses/brackets ignored)."""
+    desc = name.split("|", 1)[0].split(":", 1)[1] if ":" in name else name
+    desc = re.sub(r"\([^)]*\)|\[[^\]]*\]", " ", desc)
+    n = 1
+    for tok in desc.split():
+        m = re.search(r"(\d+)$", tok)
+        if m:
+            n *= max(1, int(m.group(1)))
+    return n
+
+
 def trace_inserts(name, kind):
     """Insertion tracing prints the whole raw tree around every insertion (quadratic): small inputs only."""
     if kind in ("synthetic", "synthetic2", "corpus", "synthetic-deep") or (kind == "memory-filters" and name.startswith("synthetic:")):
-        return True
-    if kind in ("linux", "x86", "x86-type-none", "linux-type-none", "linux-io-filters", "linux-default", "x86-default"):
+        return synthetic_pus(name) <= 128
+    if kind in ("linux", "x86", "x86-type-none", "linux-type-none", "linux-io-filters", "linux-default", "x86-default", "memory-filters"):
         m = re.match(r"\w+:(\d+)", name)
-        return bool(m) and int(m.group(1)) <= 32
+        if not m:          # bundled Linux snapshots without a PU count in their name (fake*, offline-*, memorysidecaches...) are small;
+            return name.startswith("linux:")      # x86 dumps are named after the processor: not traced
+        return int(m.group(1)) <= 32
     return False
 
 
@@ -340,7 +354,7 @@ def run_cases(run, cases, exe, drv):
                 elif cur is not None:
                     r = results[cur]
                     r["lines"].append(line)
-                    for tag in ("load", "wf", "levels", "sets", "totals", "removal", "merge", "inserts", "meminserts", "synthreq", "check"):
+                    for tag in ("load", "wf", "levels", "sets", "totals", "removal", "merge", "inserts", "meminserts", "synthreq", "linuxcpu", "check"):
                         if line.startswith(tag + " "):
                             r[tag] = line
             if rc != 0 or rc2 != 0:
@@ -386,6 +400,10 @@ def judge(run, cases, results):
                 run.violation("correspondence:synthetic-requests:%s" % kind,
                               "model of the synthetic backend (parser Text/Synthetic.v + request generation Topo/SynthBuild.v) disagrees with the objects the backend hands to the core on %s" % name,
                               script + "\n--- verdict\n" + r["synthreq"][:2000], no_input=(r["wf"] or "").startswith("wf ok"))
+            elif r.get("linuxcpu") is not None and not r["linuxcpu"].startswith("linuxcpu ok"):
+                run.violation("correspondence:linux-cpu-requests:%s" % kind,
+                              "model of look_sysfscpu (Topo/LinuxCpu.v, composed with the sysfs parser models) disagrees with the objects the Linux backend hands to the core on %s" % name,
+                              script + "\n--- verdict\n" + r["linuxcpu"][:2000], no_input=(r["wf"] or "").startswith("wf ok"))
             elif r.get("sets") != "sets ok" or r.get("totals") != "totals ok" or r.get("removal") != "removal ok" or r.get("merge") != "merge ok":
                 run.violation("correspondence:sets-pipeline:%s" % kind,
                               "model of the set post-processing (root fix-up, propagate_nodeset, fixup_sets, remove_unused_sets, filter_bridges, remove_empty, KEEP_STRUCTURE merging, propagate_total_memory) disagrees with the implementation on %s" % name,
@@ -405,6 +423,9 @@ def judge(run, cases, results):
                     run.cov[hk] = run.cov.get(hk, 0) + 1
                     if " hyp=1" not in r["synthreq"]:
                         run.cov.setdefault("synthetic_descriptions_outside_theorem", []).append(name[:200])
+                m = re.match(r"linuxcpu ok n=(\d+)", r.get("linuxcpu") or "")
+                if m:
+                    run.cov["linux_cpu_requests_compared_with_model"] = run.cov.get("linux_cpu_requests_compared_with_model", 0) + int(m.group(1))
                 m = re.match(r"meminserts ok n=(\d+)", r.get("meminserts") or "")
                 if m:
                     run.cov["memory_insertions_replayed_in_model"] = run.cov.get("memory_insertions_replayed_in_model", 0) + int(m.group(1))
